@@ -10,7 +10,8 @@ SPECS["C17"] = {
     "cap_quick": 150, "cap_thorough": 3000,
     "rule": ("one run = one seeded call history (2-12 operations: function / tabulated-data / 2-d "
              "integrals with changing, repeated or omitted npts, direct rule and polynomial-exactness "
-             "requests, integrands that raise half-way, rejected npts<=0 and bad ranges) on ONE "
+             "requests, integrands that raise half-way or re-enter the same object, rejected npts<=0 / float npts and bad ranges, "
+             "sibling tables of equal length and end points) on ONE "
              "QGauss (+ optional QGauss2) object; a run is non-trivial when the live object saw a "
              "changed point count or was used again after an aborted/rejected call; distinct = "
              "distinct event-log digests among the non-trivial runs"),
@@ -19,7 +20,8 @@ SPECS["C17"] = {
     "real": ["esutil.integrate QGauss/QGauss2/qgauss/gauleg (Python and _cgauleg C)", "esutil.stat.interplin"],
     "stub": [],
     "expect_reach": ["npts_changed_on_live_object", "call_after_aborted_call", "integrand_raised",
-                     "bad_npts_rejected", "bad_range_rejected", "sibling_table_same_length_and_end_points"],
+                     "bad_npts_rejected", "bad_range_rejected", "sibling_table_same_length_and_end_points",
+                     "integrand_reenters_the_same_object"],
     "manifest": {
         "design_ref": "3.4",
         "level_text": ("seeded search over call histories (changing/repeated/omitted point counts, integrands "
@@ -120,11 +122,14 @@ SPECS["C01"] = _rec(
     ("one run = 1-3 interleaved logical callers, each creating binary record files (random packed dtype, values incl. "
      "NaN payloads/-0.0/extremes/embedded NULs, random header dict) through a random entry point and reading them back "
      "through several others; perturbations: stale bytes or a longer file of the other form already at the path, "
-     "overwrite, a live reader object re-opened on another file, tables larger than the stdio buffer. Non-trivial = at "
+     "overwrite, a live reader object re-opened on another file, tables larger than the stdio buffer; one long-lived "
+     "SFile/Recfile object per caller re-open()ed for every file it writes or reads; header dicts that were read from an "
+     "earlier file (reserved keys included); every header dict handed back is edited in place by the caller; 4% of the "
+     "tables are size coincidences (rows of 2**m bytes, 2**k rows, up to 64 KiB and rarely 16 MiB). Non-trivial = at "
      "least one perturbation fired; distinct = distinct event-log digests among those"),
     ["create_over_stale_bytes", "overwrite", "path_held_other_form", "object_reopened_on_other_file",
      "table_larger_than_stdio_buffer", "interleaved_callers", "nonzero_offset", "long_lived_object_reopened",
-     "header_dict_read_from_an_earlier_file"],
+     "header_dict_read_from_an_earlier_file", "caller_edited_a_header_dict_it_was_handed"],
     ("seeded search over dtypes x values x headers x entry points x prior path contents x caller interleavings; every read "
      "is compared bit-for-bit with the written table and the file's bytes are parsed independently after every write. "
      "Sampling, not proof."),
@@ -133,7 +138,9 @@ SPECS["C01"] = _rec(
 SPECS["C04"] = _rec(
     "C04", 25000, 2000000,
     ("as C01 for delimited text (delimiters , : tab space ; |), integer/float/byte-string fields in either byte order; the "
-     "text is additionally tokenised by an independent parser. Non-trivial = at least one perturbation fired"),
+     "text is additionally tokenised by an independent parser; a quarter of the tables reach the file in 2-3 blocks through "
+     "one writer handle (later blocks in either byte order), a fifth get an append by reopening; size coincidences are "
+     "rows of 2**m characters. Non-trivial = at least one perturbation fired"),
     ["create_over_stale_bytes", "overwrite", "path_held_other_form", "object_reopened_on_other_file",
      "table_larger_than_stdio_buffer", "interleaved_callers", "long_lived_object_reopened",
      "header_dict_read_from_an_earlier_file", "several_writes_on_one_handle", "reopen_for_append"],
@@ -147,8 +154,10 @@ SPECS["C02"] = _rec(
     ("one run = 1-3 callers, each storing one or two tables (binary or text, sfile or raw), keeping 1-3 reader handles "
      "open and issuing 3-12 selections (scalar row, row lists with repeats/unsorted, slices with negative/out-of-range "
      "bounds and steps, column name/list in any order) through every access style, plus out-of-range row lists that "
-     "must be rejected; the model is indexing of the fully-read table. Non-trivial = a previous read, a rejected request "
-     "or a re-open preceded a judged read on the same handle"),
+     "must be rejected; the model is indexing of the fully-read table; half of the text tables carry strings with leading/"
+     "embedded/trailing blanks and delimiter characters; size-coincidence tables with subsampling slices [s::step]; field "
+     "names that differ only in case. Non-trivial = a previous read, a rejected request or a re-open preceded a judged "
+     "read on the same handle"),
     ["previous_read_on_same_handle", "read_after_rejected_request", "out_of_range_row_list",
      "object_reopened_on_other_file", "interleaved_callers", "nonzero_offset"],
     ("seeded search over selections x access styles x handle histories (cursor left by the previous read, rejected "
@@ -161,8 +170,10 @@ SPECS["C03"] = _rec(
     "C03", 25000, 2000000,
     ("one run = 1-3 callers, each running a history of 3-12 operations over {create, open writer (w / r+), write again on "
      "the same handle, close, append by reopening (sfile.write/io.write append=True, SFile r+, Recfile r+), append to a "
-     "missing path, incompatible append, overwrite, read-back (also through the r+ handle), header} on one or two paths, "
-     "binary and text. Non-trivial = at least one perturbation fired"),
+     "missing path, incompatible append (35% offered a second time, the very same array), overwrite, read-back (also "
+     "through the r+ handle), header} on one or two paths, binary and text; long-lived re-open()ed objects; 3% of the "
+     "paths use size-coincidence chunks (2**k rows of 2**m bytes, rarely 16 MiB). Non-trivial = at least one "
+     "perturbation fired"),
     ["append_to_missing_file", "reopen_for_append", "incompatible_append", "several_writes_on_one_handle",
      "close_after_writes", "overwrite", "create_over_stale_bytes", "interleaved_callers"],
     ("seeded search over operation histories; the model is the list of accepted chunks; after every mutating step with no "
@@ -177,7 +188,9 @@ SPECS["C19"] = {
     "rule": ("one run = 1-3 requests (spherical cap, lon/lat box, tabulated/functional sampler, Cholesky sampler, index "
              "selection) served by a simulator-owned random source that records every deviate and, with a per-request "
              "rate, forces legal edge deviates (0, 2^-53, 1-2^-53, quarters, repeated values, exact cumulative-table "
-             "values); numpy's global generator is poisoned and must be found untouched; real RandomState/default_rng "
+             "values; for the samplers also 1.0, the closed end of the unit interval); densities with far tails (runs of equal "
+             "cumulative values); covariances over 20 decades of scale and with axes scaled by up to 1e+-4.5; numpy's global "
+             "generator is poisoned and must be found untouched; real RandomState/default_rng "
              "with equal seeds serve as control group. Non-trivial = at least one forced deviate or special path "
              "(forced rotation, zero-width box) was in play; distinct = distinct event-log digests among those"),
     "state_measure": ("state = (request kind, generator flavour, option class, edge deviates on/off); transitions = "
@@ -211,7 +224,8 @@ SPECS["C10"] = {
              "outside the image, distortion of 0.1-30 pixel) and ONE WCS object on which 1-3 interleaved logical callers "
              "issue image2sky / round trips through sky2image(find, distort) / get_jacobian calls with scalar and array "
              "inputs; perturbations: calls that raise half-way through the vectorised root finder, non-finite inputs, sky "
-             "positions far from the field, the lazy inverse fit arriving first/late/never. Non-trivial = at least one "
+             "positions far from the field, the lazy inverse fit arriving first/late/never, other WCS objects (another header of the "
+             "same family, or the same header with another NAXIS) created and used while the object is alive. Non-trivial = at least one "
              "perturbation fired; distinct = distinct event-log digests among those"),
     "state_measure": ("state = (projection, inverse fit built?, outcome of last call, last input shape class); transition = "
                       "(state, call kind, flags)"),
@@ -246,7 +260,10 @@ SPECS["C12"] = {
              "from 0 and 1e-6 to 180 deg, maxmatch in {-1,0,1,2,k,>group}) in memory or to a pair file that is read back, "
              "interleaved by a seeded schedule; perturbations: stale longer pair file at the output path, calls rejected for "
              "mismatched sizes or an unwritable path, reuse after rejection; cross checks against the one-shot HTM.match, "
-             "another depth, and the same question asked twice. Non-trivial = at least one perturbation fired"),
+             "another depth, and the same question asked twice; coordinate arrays byte-swapped/strided in 30% of the calls; "
+             "long-lived one-shot HTM objects fed from caller buffers refilled in place, writing to the same file names; point "
+             "sets on octant edges and with twin partners at about the search radius. Non-trivial = at least one perturbation "
+             "fired"),
     "state_measure": ("state = per matcher (depth class, #calls capped at 3, last outcome); transition = (state, call, "
                       "maxmatch class, radius class, sink and whether the output path was occupied)"),
     "real": ["esutil.htm (Python, _htmc C++ and the HTM library)", "esutil.recfile via read_pairs", "glibc stdio",
@@ -305,7 +322,7 @@ SPECS["C15"] = {
     "expect_reach": ["guarded_plain", "guarded_swapped", "guarded_strided", "guarded_strided_swapped", "guarded_offset",
                      "guarded_f4", "guarded_int", "guarded_zerod", "guarded_fortran", "array_reused_by_a_later_call",
                      "call_raised", "family_fields", "family_byteorder", "family_match", "family_hist", "family_stat",
-                     "family_coords", "family_cosmology", "family_htm", "write_rejected_with_guarded_table",
+                     "family_coords", "family_cosmology", "family_htm", "arguments_passed_as_temporaries", "write_rejected_with_guarded_table",
                      "write_through_read_only_object", "special_values_in_a_caller_array", "writer_option_padnull"],
     "assumptions": ["for the pure families (field operations, byte-order helpers, match/unique, histograms, statistics, "
                     "coordinates, cosmology, HTM lookup/pair counting) the per-call part of a session is generated inputs, not "
